@@ -151,6 +151,19 @@ template <class T>
 T *rawp(std::move_iterator<T *> it) {
   return it.base();
 }
+// number of source elements consumed
+template <class T>
+long consumed(T *first, T *src, int) {
+  return first - src;
+}
+template <class T, class C>
+long consumed(It<T, C> first, T *src, int) {
+  return first.p - src;
+}
+template <class T>
+long consumed(std::reverse_iterator<T *> first, T *src, int n) {
+  return (src + n) - first.base();
+}
 
 struct Label {
   std::string a, sit, dit, cat;
@@ -207,13 +220,13 @@ static void callMove(const Label &lb, S sb, S se, D db, T *srcRaw, T *dstRaw, Ou
   } else if (a == "uninitialized_move_n") {
     std::pair<S, D> pr = amc::uninitialized_move_n(sb, n, db);
     o.ret = rawp(pr.second) - dstRaw;
-    o.ret2 = rawp(pr.first) - srcRaw;
+    o.ret2 = consumed(pr.first, srcRaw, n);
   } else if (a == "uninitialized_relocate") {
     o.ret = rawp(amc::uninitialized_relocate(sb, se, db)) - dstRaw;
   } else if (a == "uninitialized_relocate_n") {
     std::pair<S, D> pr = amc::uninitialized_relocate_n(sb, n, db);
     o.ret = rawp(pr.second) - dstRaw;
-    o.ret2 = rawp(pr.first) - srcRaw;
+    o.ret2 = consumed(pr.first, srcRaw, n);
   } else {
     o.unsupported = true;
   }
@@ -306,7 +319,12 @@ static void run(const Label &lb, FILE *out) {
         callSrc<T>(lb, It<T, std::bidirectional_iterator_tag>(src), It<T, std::bidirectional_iterator_tag>(src + n), src, o);
       else if (lb.sit == "fwd")
         callSrc<T>(lb, It<T, std::forward_iterator_tag>(src), It<T, std::forward_iterator_tag>(src + n), src, o);
-      else
+      else if (lb.sit == "rev") {
+        if (a == "destroy")
+          amc::destroy(std::reverse_iterator<T *>(src + n), std::reverse_iterator<T *>(src));
+        else
+          o.ret = consumed(amc::destroy_n(std::reverse_iterator<T *>(src + n), n), src, n);
+      } else
         o.unsupported = true;
     } else if (moving || copying) {
       if (lb.sit == "ptr")
@@ -317,6 +335,8 @@ static void run(const Label &lb, FILE *out) {
         withDst<T>(lb, It<T, std::bidirectional_iterator_tag>(src), It<T, std::bidirectional_iterator_tag>(src + n), src, dst, o, moving);
       else if (lb.sit == "fwd")
         withDst<T>(lb, It<T, std::forward_iterator_tag>(src), It<T, std::forward_iterator_tag>(src + n), src, dst, o, moving);
+      else if (lb.sit == "rev")
+        withDst<T>(lb, std::reverse_iterator<T *>(src + n), std::reverse_iterator<T *>(src), src, dst, o, moving);
       else if (lb.sit == "move" && copying)
         withDstCopy<T>(lb, std::make_move_iterator(src), std::make_move_iterator(src + n), dst, o);
       else
